@@ -1,6 +1,6 @@
 """C12 monitor: the strings stored in each written file (shared string table + inline / str cells,
 read by the independent decoder) must be exactly the strings reachable from the workbook at save time."""
-import json, os, sys
+import json, os, re, sys
 from multiprocessing import Pool
 sys.path.insert(0, os.path.dirname(os.path.abspath(__file__)))
 import xlsx_decode
@@ -36,6 +36,23 @@ def read_one(arg):
             c['reachable'] = sorted(set(c['reachable']) | extra)
         except Exception as e:
             return c, None, 'origin file: %r' % e
+    # every other part of the package: ids of strings that are no longer reachable must not be anywhere (chart caches,
+    # comments, drawings, document properties ...). Strings are s<case>-<n>; a token boundary keeps s5-1 apart from s5-12.
+    import re, zipfile
+    reach_ids = set(re.findall(r's%d-(\d+|second|third)' % c['case'], ' '.join(c['reachable'])))
+    pat = re.compile(rb'(?<![0-9A-Za-z])s%d-(\d+|second|third)(?![0-9A-Za-z])' % c['case'])
+    c['foreign_in_parts'] = []
+    try:
+        z = zipfile.ZipFile(os.path.join(out_dir, c['file']))
+        for n in z.namelist():
+            if n == 'xl/sharedStrings.xml' or n.startswith('xl/worksheets/sheet'):
+                continue
+            for mm in pat.finditer(z.read(n)):
+                if mm.group(1).decode() not in reach_ids and not c.get('lazy_origin'):
+                    c['foreign_in_parts'].append((n, mm.group(0).decode()))
+                    break
+    except Exception as e:
+        return c, None, 'scan of parts: %r' % e
     cell_texts = set()
     for s in m['sheets']:
         for ref, cell in s['cells'].items():
@@ -77,6 +94,9 @@ def check(out_dir, procs=16):
             t = leaked[0]
             kind = 'clone-or-other-workbook' if c['nbooks'] > 1 else 'overwritten-or-deleted'
             div('leaked-string[%s]' % kind, c, '%s holds %d string(s) not reachable from book%d at save time, e.g. %r (created by: %s)' % (c['file'], len(leaked), c['book'], t, origin_of(t, c['history'])))
+        for part, token in c.get('foreign_in_parts', []):
+            cls = re.sub(r'[0-9]+', '', part)
+            div('unreachable-string-in-part:%s' % cls, c, '%s: part %s still holds %r, which is not reachable from book%d at save time' % (c['file'], part, token, c['book']))
         missing = [t for t in reach if t not in set(stored) and t not in set(cell_texts)]
         if missing:
             div('missing-string', c, '%s lacks %r' % (c['file'], missing[0]))
